@@ -411,6 +411,9 @@ func main() {
 	if *tier == "thorough" {
 		nGen = 500
 	}
+	if fillable, skipped := c14sim.OptionFields(); len(fillable)+len(skipped) > 0 {
+		fmt.Printf("note: CompileOptions has fields besides Parameters; calls that set them are added to the workload: %v; left at their zero value (type the harness cannot generate): %v\n", fillable, skipped)
+	}
 	pool := c14sim.GenPool(base, nGen)
 	poolPath := filepath.Join(*work, "pool.json")
 	excluded := referencePass(pool, poolPath, parallel)
